@@ -54,6 +54,45 @@ def knot (R : K) (n0 t0 : V3 K) (h0 sArc c s : K) : Knot K :=
   ⟨sArc, ⟨nq.x * R + 0, nq.y * R + 0, nq.z * R + (h0 + sArc * t0.z)⟩, rotZ c s t0, sArc, 1, 1, 0⟩
 end Cyl
 
+/-! ## the loop as coded: `R = dR * R` with a constant incremental rotation (review E, C47 M1)
+
+The code does not evaluate the closed form at `k·Δφ`; it keeps a Frenet frame `R` (columns x = tangent, y = normal,
+z = binormal) and multiplies it from the left by the same `dR = Rotation(Δφ, axis)` once per knot. -/
+/-- `Rotation(angle, unitAxis)` as a matrix (Rodrigues), from the trig pair `(c, s)` of the angle -/
+def axisAngle (u : V3 K) (c s : K) : M3 K :=
+  ⟨⟨c + (1 - c) * u.x * u.x, (1 - c) * u.x * u.y - s * u.z, (1 - c) * u.x * u.z + s * u.y⟩,
+   ⟨(1 - c) * u.y * u.x + s * u.z, c + (1 - c) * u.y * u.y, (1 - c) * u.y * u.z - s * u.x⟩,
+   ⟨(1 - c) * u.z * u.x - s * u.y, (1 - c) * u.z * u.y + s * u.x, c + (1 - c) * u.z * u.z⟩⟩
+/-- the frame with the given columns -/
+def frameOfCols (x y z : V3 K) : M3 K := ⟨⟨x.x, y.x, z.x⟩, ⟨x.y, y.y, z.y⟩, ⟨x.z, y.z, z.z⟩⟩
+/-- the frame after `k` passes through `R = dR * R` -/
+def frameIter (dR : M3 K) : Nat → M3 K → M3 K
+  | 0, R => R
+  | k + 1, R => M3.mul dR (frameIter dR k R)
+/-- the trig pair of `k·Δφ` obtained from the pair `(cd, sd)` of `Δφ` by the addition law -/
+def trigIter (cd sd : K) : Nat → K × K
+  | 0 => (1, 0)
+  | k + 1 => ((trigIter cd sd k).1 * cd - (trigIter cd sd k).2 * sd, (trigIter cd sd k).2 * cd + (trigIter cd sd k).1 * sd)
+
+namespace Sph
+/-- the knot the sphere loop writes from its current frame `R` (`t_Q`, `n_Q` = columns x, y); `nP`, `tP` are the start axes -/
+def knotOfFrame (r : K) (nP tP : V3 K) (R : M3 K) (sArc : K) : Knot K :=
+  let tq := M3.col0 R
+  let nq := M3.col1 R
+  ⟨sArc, V3.smul r nq, tq, -(V3.dot nP tq) * r, V3.dot nP nq, V3.dot tP tq, -(V3.dot tP nq) / r⟩
+/-- knot `k` of the loop: start frame (t, n, t × n), axis = −binormal = −(t × n), `(cd, sd)` = trig pair of `dAngle` -/
+def knotLoop (r : K) (n t : V3 K) (cd sd : K) (k : Nat) (sArc : K) : Knot K :=
+  knotOfFrame r n t (frameIter (axisAngle (V3.neg (V3.cross t n)) cd sd) k (frameOfCols t n (V3.cross t n))) sArc
+end Sph
+
+namespace Cyl
+/-- knot `k` of the cylinder loop: `dR = Rotation(dAngle, ZAxis)` -/
+def knotLoop (R : K) (n0 t0 : V3 K) (h0 : K) (cd sd : K) (k : Nat) (sArc : K) : Knot K :=
+  let F := frameIter (axisAngle (⟨0, 0, 1⟩ : V3 K) cd sd) k (frameOfCols t0 n0 (V3.cross t0 n0))
+  let nq := M3.col1 F
+  ⟨sArc, ⟨nq.x * R + 0, nq.y * R + 0, nq.z * R + (h0 + sArc * t0.z)⟩, M3.col0 F, sArc, 1, 1, 0⟩
+end Cyl
+
 /-! ## legacy two-point interface (`calcGeodesicAnalytical`): arc angle of the great circle through P and Q -/
 /-- `angle = atan2(|e1 × eQ|, e1 · eQ)`, taken right- or left-handed according to the sign of the mean hint moment `M` -/
 def sphArcAngle (atan2 : K → K → K) (twoPi : K) (sinA cosA M : K) : K :=
